@@ -28,6 +28,8 @@ def run(c):
                 if not rec and c.thorough is False and i % 2:
                     continue
                 params = dict(pe.START[start], ops=h, recursive=rec, paced=True, spell="bytes" if i % 5 == 0 else "str")
+                if i % 3 == 1:
+                    params["names"] = pe.PREFIX_NAMES
                 tms = pe.timings(c.seed + i, n_random=1, n_pct=0) if not c.thorough or len(h) > 2 else pe.timings(c.seed + i)
                 for spec in tms:
                     cases.append((params, spec))
